@@ -14,14 +14,14 @@ import (
 )
 
 var c03Forced = []string{"group.1col", "group.2col", "group.3col", "group.nullkey", "group.mixedkey", "having", "having.key", "where", "star", "agg.COUNT*", "agg.COUNT", "agg.SUM", "agg.MIN", "agg.MAX", "agg.AVG",
-	"agg.samefn-diffcol", "agg.samefn-samecol", "agg.nullable", "whole.where", "whole.nowhere", "whole.empty", "whole.union", "whole.limit", "table.empty", "from.alias", "reexec.vars", "agg.groupcol", "naming.alias-unqualified", "naming.table-qualified", "agg.like-named", "star.only", "naming.mixed-spelling", "column.nonword", "column.table-prefixed", "agg.huge"}
+	"agg.samefn-diffcol", "agg.samefn-samecol", "agg.nullable", "whole.where", "whole.nowhere", "whole.empty", "whole.union", "whole.limit", "table.empty", "from.alias", "reexec.vars", "agg.groupcol", "naming.alias-unqualified", "naming.table-qualified", "agg.like-named", "star.only", "naming.mixed-spelling", "column.nonword", "column.table-prefixed", "agg.huge", "having.alias"}
 
 func init() {
 	fw.Register(&fw.Prop{
 		ID:    "C03",
 		Title: "GROUP BY partitions rows; aggregates cover exactly their group and honour WHERE",
 		Level: "exploration",
-		Rule: "whole-number members around and beyond 2^63 (exact sums); column names that begin with the table's name. GROUP BY spelling the grouping columns the other way than the select list; column names that are not plain words. naming modes (alias, alias-unqualified, table-qualified); aggregates of grouping columns and over like-named nested members; groups shown by `*` alone; re-execution across an execution that fails after its first aggregates. whole-table aggregates may carry a LIMIT that does not cut; a share of the cases reads an aliased table with every column named by its qualified source name; phase 'reexec': one Query executed five times while a variable its WHERE reads changes, each execution compared with a fresh query. each case = random table (string/number/boolean/nullable grouping columns, numeric columns holding dyadic rationals k/4 so that every sum is exact) x GROUP BY over 1..3 columns x optional WHERE (C01 grammar) x optional HAVING over aggregates/key columns " +
+		Rule: "HAVING naming an aggregate of the select list by its alias. whole-number members around and beyond 2^63 (exact sums); column names that begin with the table's name. GROUP BY spelling the grouping columns the other way than the select list; column names that are not plain words. naming modes (alias, alias-unqualified, table-qualified); aggregates of grouping columns and over like-named nested members; groups shown by `*` alone; re-execution across an execution that fails after its first aggregates. whole-table aggregates may carry a LIMIT that does not cut; a share of the cases reads an aliased table with every column named by its qualified source name; phase 'reexec': one Query executed five times while a variable its WHERE reads changes, each execution compared with a fresh query. each case = random table (string/number/boolean/nullable grouping columns, numeric columns holding dyadic rationals k/4 so that every sum is exact) x GROUP BY over 1..3 columns x optional WHERE (C01 grammar) x optional HAVING over aggregates/key columns " +
 			"x select list mixing key columns, `*` and 2..5 aggregates (incl. the same function on different columns and twice on one column); or, without GROUP BY, an all-aggregate select list with/without WHERE (incl. WHERE keeping nothing). " +
 			"The real output must equal the reference group-by as a sequence (groups in first-appearance order, members in source order, bit-exact aggregates); conservation sum(COUNT(*)) = |filtered rows| is checked directly; every case is executed 3 (thorough 8) times on fresh copies and all runs must be identical. " +
 			"Non-trivial = at least 2 output groups, or a whole-table aggregate over a WHERE that keeps a proper non-empty subset; distinct = distinct (table, SQL).",
@@ -284,7 +284,7 @@ func c03Group(c *fw.Case) {
 	if containsStr(gcols, "g2") {
 		havingAggs = append(havingAggs, ref.Agg{Fn: "SUM", Col: "g2"}, ref.Agg{Fn: "COUNT", Col: "g2"})
 	}
-	if !whole && (force == "having" || force == "having.key" || c.Chance(0.35)) {
+	if !whole && (force == "having" || force == "having.key" || force == "having.alias" || c.Chance(0.35)) {
 		atom := func() gen.Pred {
 			ops := []string{"=", "!=", "<", "<=", ">", ">="}
 			useKey := !aliasMode && (force == "having.key" || c.Chance(0.25))
@@ -307,6 +307,14 @@ func c03Group(c *fw.Case) {
 			a := gen.Pick(c.R, havingAggs)
 			name := "@" + a.SQL()
 			colText[name] = qualify(a.SQL())
+			// an aggregate of the select list may be named by its alias
+			for _, it := range items {
+				if it.agg != nil && it.agg.SQL() == a.SQL() && (force == "having.alias" || c.Chance(0.5)) {
+					colText[name] = it.key
+					feats = append(feats, "having.alias")
+					break
+				}
+			}
 			var lit float64
 			if a.Fn == "COUNT" {
 				lit = float64(c.Intn(4))
